@@ -18,7 +18,7 @@ Theorem C09_merged_is_concat :
       ident d = all_indexed fs0 ins /\
       forall sg ops, reads_ok parts ops ->
         map coarse (snd (run fixed_cfg (mkW fs' (Some h)) ops))
-        = snd (spec_run (concat_world outp d parts sg cp) ops).
+        = snd (spec_run (concat_world outp d parts sg cp []) ops).
 Proof. exact merged_is_concat. Qed.
 Print Assumptions C09_merged_is_concat.
 
